@@ -23,7 +23,7 @@ REQUIREMENTS for each change
 - It must need something SPECIFIC to manifest - a particular interleaving / completion order, a fault at a particular point, a multi-step sequence of operations, an unusual input shape, or two cooperating sites - NOT something that ordinary everyday use would expose at once. Since the full test suite must still pass, it must slip between the existing tests.
 - It violates the property as stated (not merely changes an error message's wording or performance).
 - It must keep the library importable, and the FULL test suite must still pass (3340 passed).
-- The {n} changes should be independent of each other (different code sites / mechanisms) and each is delivered as its own patch against the unmodified worktree (use `git stash`/`git checkout -- .` between them).
+- The {n} changes should be independent of each other (different code sites / mechanisms) and each is delivered as its own patch against the unmodified worktree (save each with `git diff > file`, then `git checkout -- .`; do NOT use `git stash` - the stash is shared between all worktrees of the repository and other people are working in sibling worktrees).
 
 DELIVERABLES - write them under {out}/<k>/ for k = 1..{n}:
 - patch.diff : output of `git -C {wt} diff` for that change alone (applies with `git apply` to a clean checkout of the same commit).
